@@ -35,17 +35,18 @@ type Program struct {
 	ufuns       map[string]*UFun
 	forceUnroll map[string]bool
 
-	mu        sync.Mutex
-	loopCache map[*ssa.Function]map[*ssa.BasicBlock]*loopInfo
-	ordCache  map[*ssa.Function]map[ssa.Instruction]int
-	funcIDs   map[*ssa.Function]int
-	funcByID  map[T]VFunc
-	nextFn    int
-	poolTypes map[*ssa.Global]types.Type
-	poolNew   map[*ssa.Function]*ssa.Global
-	stores    map[*ssa.Global]int // number of Store instructions to each global outside init
-	repoRoot  string
-	initVals  map[*ssa.Global]func(ex *Exec, st *State) Val
+	mu             sync.Mutex
+	loopCache      map[*ssa.Function]map[*ssa.BasicBlock]*loopInfo
+	ordCache       map[*ssa.Function]map[ssa.Instruction]int
+	funcIDs        map[*ssa.Function]int
+	funcByID       map[T]VFunc
+	nextFn         int
+	poolTypes      map[*ssa.Global]types.Type
+	poolNew        map[*ssa.Function]*ssa.Global
+	stores         map[*ssa.Global]int // number of Store instructions to each global outside init
+	repoRoot       string
+	initVals       map[*ssa.Global]func(ex *Exec, st *State) Val
+	staleContracts []string
 }
 
 const repoModule = "github.com/gabriel-vasile/mimetype"
@@ -137,9 +138,13 @@ func loadProgram(root string) (*Program, error) {
 	}
 	for k := range sf.Contracts {
 		if _, ok := p.funcs[k]; !ok {
-			return nil, fmt.Errorf("contract for unknown function %q (known: see `govc list`)", k)
+			// the function was removed or renamed: its contract is dropped (its baseline obligations
+			// are reported as gone); callers are verified against the code that is there now
+			p.staleContracts = append(p.staleContracts, k)
+			delete(sf.Contracts, k)
 		}
 	}
+	sort.Strings(p.staleContracts)
 	p.scanGlobals()
 	return p, nil
 }
@@ -324,7 +329,7 @@ func (p *Program) globalLoad(ex *Exec, st *State, g *ssa.Global) Val {
 	if iv, ok := p.initValue(ex, st, g); ok {
 		v = iv
 	} else {
-		v = ex.freshVal(st, "g_"+g.Name(), c.typ, true)
+		v = ex.entryGlobal(st, g, c.typ)
 		ex.typeFacts(st, v, c.typ)
 	}
 	st.cells[c] = v
@@ -347,4 +352,42 @@ func (p *Program) sortedKeys() []string {
 	}
 	sort.Strings(ks)
 	return ks
+}
+
+// entryGlobal: the (arbitrary) value a global has at function entry. Scalars and pointers get
+// a symbol named after the global, so that the entry state and later states agree on it however
+// late it is first read.
+func (ex *Exec) entryGlobal(st *State, g *ssa.Global, t types.Type) Val {
+	name := "g0_" + g.Pkg.Pkg.Name() + "_" + g.Name()
+	switch u := t.Underlying().(type) {
+	case *types.Basic:
+		if u.Info()&types.IsBoolean != 0 {
+			return VBool{ex.decls.named(name, SBool)}
+		}
+		if u.Info()&types.IsInteger != 0 {
+			x := ex.decls.named(name, SInt)
+			st.assume(rangeFact(t, x))
+			return VInt{x}
+		}
+	case *types.Pointer:
+		if n, ok := heapStructName(u.Elem()); ok {
+			x := ex.decls.named(name, SInt)
+			st.assume(tLe("0", x))
+			return VRef{x, n}
+		}
+	case *types.Signature:
+		x := ex.decls.named(name, SInt)
+		st.assume(tLe("0", x))
+		return VFunc{ID: x}
+	case *types.Interface:
+		return VIface{ID: ex.decls.named(name, SInt)}
+	}
+	return ex.freshVal(st, "g_"+g.Name(), t, true)
+}
+
+func (p *Program) lookupFuncByID(id T) (VFunc, bool) {
+	p.mu.Lock()
+	defer p.mu.Unlock()
+	f, ok := p.funcByID[id]
+	return f, ok
 }
